@@ -23,13 +23,18 @@ LEVEL = 'exploration'
 RULE = ('families: (T) every tree of the C01 families F1-F7 (quick: <=1 mutation) -> verify, verify -k, update; '
         '(U) every C03 prior state x edit -> verify -k, update of the whole tree and of every sub-directory, create, '
         'each with the default/ebuild/old-ebuild profile; (G) the C09 line-grammar product as the top-level Manifest '
-        'of a small tree -> verify, verify -k, update; (O) named odd corners. A case = (family, descriptor, command); '
-        'non-trivial = the command did not simply succeed')
+        'of a small tree -> verify, verify -k, update; (O) named odd corners; (K) non-MANIFEST entries naming Manifest files; (X) the '
+        'OpenPGP back end of the library scripted: operation x exit status x status lines x stderr bytes (ASCII, UTF-8, '
+        'Latin-1, binary). A case = (family, descriptor, command); non-trivial = the command did not simply succeed')
 ASSUMPTIONS = [
     'in-process gemato.cli.main with a log-capturing root handler; argparse exits are SystemExit',
     'an escaping OSError is "genuine" iff re-issuing open/stat/scandir on exc.filename fails with the same errno',
     'DONT_CARE: the deliberate NotImplementedError for a now-ignored path with an old parent entry; corrupt '
-    'compressed streams (not UTF-8 Manifest text)',
+    'compressed streams (not UTF-8 Manifest text) - recognised from the input tree (a file named Manifest.<format> '
+    'that does not decompress), not from where the exception was raised',
+    'family X: gemato.openpgp.subprocess replaced by a shim whose processes answer from the case; status lines are '
+    'well-formed GnuPG status lines, only exit status and the bytes on stderr vary; library exceptions are fine, '
+    'anything else escaping is an internal error',
 ]
 
 TOP = scen.TOP
@@ -52,8 +57,9 @@ def attributable(o):
     return False
 
 
-def classify(o):
-    """-> (class, violation-sig or None)"""
+def classify(o, corrupt_input=False):
+    """-> (class, violation-sig or None).  corrupt_input: the tree holds a file named Manifest.<format> whose
+    compressed stream does not decompress (decided from the input, not from where the exception came from)."""
     if o['kind'] == 'ret':
         v = o['value']
         if v in (0, None):
@@ -76,11 +82,22 @@ def classify(o):
                                           'errno': o.get('errno')}
     if o['exc'] == 'NotImplementedError' and 'now-ignored' in (o.get('msg') or ''):
         return 'notimplemented_deliberate', None
-    if o['exc'] in ('EOFError', 'BadGzipFile', 'LZMAError') and o.get('where') in (
-            'manifest.py:load', 'compression.py:open_potentially_compressed_path', 'compression.py:open_compressed_file'):
-        # a referenced Manifest whose compressed stream is corrupt: not "UTF-8 Manifest text"
+    if o['exc'] in ('EOFError', 'BadGzipFile', 'LZMAError') and corrupt_input:
+        # a Manifest whose compressed stream is corrupt is in the tree: not "UTF-8 Manifest text"
         return 'corrupt_compressed_manifest', None
     return 'internal', {'check': 'internal_error', 'exc': o['exc'], 'where': o.get('where')}
+
+
+def has_corrupt_compressed_manifest(tree_json):
+    from gverif.treemodel import comp_of, decompress
+    for p, d in tree_json['files'].items():
+        b = os.path.basename(p)
+        if b.startswith('Manifest') and comp_of(b) and isinstance(d, bytes):
+            try:
+                decompress(d, comp_of(b))
+            except Exception:          # noqa: BLE001
+                return True
+    return False
 
 
 def commands(root, tree_json, what):
@@ -109,7 +126,7 @@ def run_cmds(case, scratch, stats=None):
             c03.apply_edit_disk(root, pre)
         argv = [a.replace('{root}', root) for a in argv]
         o = gem.cli(argv)
-        cls, sig = classify(o)
+        cls, sig = classify(o, has_corrupt_compressed_manifest(case['tree']))
         if stats is not None:
             stats.evaluations += 1
             stats.transitions += 1
@@ -134,6 +151,8 @@ def run_cmds(case, scratch, stats=None):
 
 def replay(case, scratch):
     case = dict(case)
+    if case.get('family') == 'X':
+        return check_X(case, scratch)
     case['cmds'] = [(l, list(a)) for l, a in case['cmds']]
     return run_cmds(case, scratch)
 
@@ -419,6 +438,94 @@ def fam_K(spec, tier, seed, scratch, stats):
         stats.sample({'family': 'K', 'tag': tag, 'kinds': K_KINDS, 'commands_per_tree': len(cmds)})
 
 
+# ---- family X: what the OpenPGP back end says (exit status, status lines, stderr BYTES in any locale)
+
+X_STDERR = [b'', b'gpg: failed\n', 'gpg: \u00e9chec\n'.encode('utf8'), 'gpg: \u00e9chec\n'.encode('latin-1'),
+            b'\xff\xfe\x00', b'\x80']
+_FPR = '0123456789ABCDEF0123456789ABCDEF01234567'
+_VALID = f'[GNUPG:] VALIDSIG {_FPR} 2017-11-08 1510133850 0 4 0 1 8 01 {_FPR}\n'
+X_STATUS = {
+    'none': '', 'good': f'[GNUPG:] GOODSIG {_FPR[-16:]} x\n{_VALID}[GNUPG:] TRUST_ULTIMATE 0 pgp\n',
+    'untrusted': f'[GNUPG:] GOODSIG {_FPR[-16:]} x\n{_VALID}[GNUPG:] TRUST_NEVER 0 pgp\n',
+    'expkey': f'[GNUPG:] EXPKEYSIG {_FPR[-16:]} x\n{_VALID}', 'revkey': f'[GNUPG:] REVKEYSIG {_FPR[-16:]} x\n{_VALID}',
+    'bad': f'[GNUPG:] BADSIG {_FPR[-16:]} x\n', 'err': f'[GNUPG:] ERRSIG {_FPR[-16:]} 1 8 01 1510133850 9 -\n',
+    'import_ok': f'[GNUPG:] IMPORT_OK 1 {_FPR}\n',
+}
+X_OPS = ('iso_close', 'iso_import', 'iso_verify', 'sys_verify', 'sys_sign', 'iso_sign')
+
+
+def check_X(case, scratch, stats=None):
+    import io
+    import types
+    import subprocess as real_subprocess
+    import gemato.openpgp as gpgmod
+    op, ret, status, err = case['op'], case['ret'], X_STATUS[case['status']], bytes(case['stderr'])
+
+    class Proc:
+        def __init__(self, argv):
+            self.argv = argv
+
+        def communicate(self, stdin=None):
+            return (status.encode('utf8') if '--kill' not in self.argv else b'', err)
+
+        def wait(self):
+            return ret
+
+    shim = types.SimpleNamespace(Popen=lambda argv, **kw: Proc(argv), PIPE=real_subprocess.PIPE,
+                                 DEVNULL=getattr(real_subprocess, 'DEVNULL', None))
+    old = gpgmod.subprocess
+
+    def go():
+        gpgmod.subprocess = shim
+        env = None
+        try:
+            if op.startswith('iso'):
+                env = gpgmod.IsolatedGPGEnvironment()
+            else:
+                env = gpgmod.SystemGPGEnvironment()
+            if op == 'iso_import':
+                env.import_key(io.BytesIO(b'key material'))
+            elif op.endswith('_verify'):
+                env.verify_file(io.StringIO('-----BEGIN PGP SIGNED MESSAGE-----\n\nDATA a 0\n'))
+            elif op.endswith('_sign'):
+                env.clear_sign_file(io.StringIO('DATA a 0\n'), io.StringIO())
+            if op.startswith('iso'):
+                env.close()
+                env = None
+            return 0
+        finally:
+            gpgmod.subprocess = old
+            if env is not None and hasattr(env, '_home') and env._home:
+                import shutil
+                shutil.rmtree(env._home, ignore_errors=True)
+    o = gem.call(go)
+    if stats is not None:
+        stats.evaluations += 1
+        stats.transitions += 1
+        stats.compared += 1
+        stats.outcomes[f'X/{op}/{"ok" if o["kind"] == "ret" else o.get("class")}'] += 1
+    if o['kind'] == 'exc' and o.get('class') not in ('gemato',):
+        sig = {'check': 'internal_error' if o.get('class') == 'internal' else 'unexpected_' + str(o.get('class')),
+               'exc': o['exc'], 'family': 'X', 'op': op}
+        return [{'sig': sig, 'case': case,
+                 'message': f'{sig["check"]}: {op} with back-end exit {ret}, status {case["status"]!r}, stderr '
+                 f'{err!r} -> {gem.brief(o)} {o.get("msg") or ""}'}]
+    return []
+
+
+def fam_X(spec, tier, seed, scratch, stats):
+    _x, op = spec
+    statuses = ['none'] if op in ('iso_close', 'sys_sign', 'iso_sign') else (
+        ['none', 'import_ok'] if op == 'iso_import' else [k for k in X_STATUS if k != 'import_ok'])
+    for ret, st, err in itertools.product((0, 1, 2), statuses, X_STDERR):
+        case = {'family': 'X', 'op': op, 'ret': ret, 'status': st, 'stderr': err}
+        for x in check_X(case, scratch, stats):
+            stats.violation(x['sig'], x['case'], x['message'])
+        stats.case(('X', op, ret, st, err), nontrivial=True)
+    if len(stats.samples) < 1:
+        stats.sample({'family': 'X', 'op': op, 'exit': [0, 1, 2], 'statuses': statuses, 'stderr': [repr(e) for e in X_STDERR]})
+
+
 def shards(tier, seed):
     t = [s for s in c01.shards('quick', seed) if s[0] != 'F9']     # F9 (several CLI paths) has its own case format
     if tier == 'quick':
@@ -438,12 +545,13 @@ def shards(tier, seed):
     # two files until the kernel answers ENAMETOOLONG (~1.5 s per command): thorough tier only
     out += [('O', name) for name, _t in odd_corners() if tier == 'thorough' or name != 'manifest_cycle']
     out += [('K', tag) for tag in K_TAGS]
+    out += [('X', op) for op in X_OPS]
     return out
 
 
 def run_shard(spec, tier, seed, scratch):
     stats = Stats()
-    {'T': fam_T, 'U': fam_U, 'G': fam_G, 'O': fam_O, 'K': fam_K}[spec[0]](spec, tier, seed, scratch, stats)
+    {'T': fam_T, 'U': fam_U, 'G': fam_G, 'O': fam_O, 'K': fam_K, 'X': fam_X}[spec[0]](spec, tier, seed, scratch, stats)
     stats.counters['family_' + spec[0]] += 1
     return stats
 
